@@ -88,4 +88,10 @@ META = {
         "note": "Trusted: Coq kernel; go2v's reading of the Lock/defer Unlock idiom; hook placement in GenericSyncMap; Go race detector for data races (observed, not proved); bounded-preemption exploration is the search, the theorem covers all schedules of the model.",
         "technique": "Coq proof (invariant over schedules; refinement blocks->step) on a generated lock table + forced-schedule exploration of the real code under -race",
     },
+    "C06": {
+        "text": "One Coq theorem per supported message form (22 in Props/C06.v): for all field values in the stated domain, processing the message rendered from sshd's format string yields exactly the expected result record (one event with exactly those fields, outcome, counter label, forwarded login for accepted authentications). Proved over the GENERATED regexes and dispatch table (greedy-field lemma with three ways to exclude later split points, tail-clash argument for the seven 'User ...' forms). The accepted public-key and certificate forms are proved over a restricted domain and named _partial. Differential execution over the full generated domain (unicode names, IPv6 with zone ids, key ids with spaces/parentheses/'serial', serials to 2^64-1, paths with spaces) compares model and implementation, and the oracle compares the implementation with the event expected by construction.",
+        "design_ref": "DESIGN.md 6/C06",
+        "note": "Domains are explicit hypotheses (see the table at the top of Props/C06.v); where an earlier greedy field needs a later field to be space-free (shell; path in revoked-key forms) the wider domain is covered by correspondence + oracle only. A certificate key id that itself contains a complete ' from A port N sshX: ALG:SUM' fragment hijacks the greedy fields (Example C06_example_keyid_hijack): outside the property's stated key-id domain, recorded as an observation.",
+        "technique": "Coq proof per message form over generated regex ASTs + model/implementation correspondence + by-construction oracle",
+    },
 }
